@@ -26,13 +26,53 @@ class C04Spec(ModelSpec):
         self.formats = ("c",)
 
 
+def t_scenarios(tier):
+    """The same property while calls overlap: a removal observer on every step of every interleaving."""
+    S = lambda p, c: ("store", p, c, None)
+    menu = [("xA||t1A", "Aunref", [("dii", "A", "badsize")], [("tag", "p1", "A")]),
+            ("xA||s1A", "Aunref", [("dii", "A", "badsize")], [S("p1", "A")]),
+            ("xA||d1", "p1A", [("dii", "A", "badck")], [("delete", "p1")]),
+            ("d1||t2A", "p1A", [("delete", "p1")], [("tag", "p2", "A")]),
+            ]
+    if tier == "thorough":
+        menu += [("xA||xA", "Aunref", [("dii", "A", "badsize")], [("dii", "A", "badck")]),
+                 ("d1||s2A", "p1A", [("delete", "p1")], [S("p2", "A")]),
+                 ("d1||d2", "p1A,p2A", [("delete", "p1")], [("delete", "p2")]),
+                 ("d1||s1A;d1?", "p1A", [("delete", "p1")], [S("p2", "A"), ("delete", "p2")])]
+    return [{"name": n, "init": st, "threads": {"T1": a, "T2": b}, "pids": ("p1", "p2"), "observer": "removal",
+             "judge": "liveness", "reduce": False} for n, st, a, b in menu]
+
+
 def main(tier):
     rep = common.Report("C04", tier, "model_checking")
     run_spec(rep, C04Spec(tier), "closure", time_cap=240 if tier == "quick" else 3000)
+    from ._t import run_scenarios
+    results = run_scenarios(rep, t_scenarios(tier))
+    per = {}
+    for r in results:
+        if "harness_error" in r:
+            raise common.HarnessError("scenario %s: %s" % (r["name"], r["harness_error"]))
+        per[r["name"]] = {"executions": r["executions"], "states": r["states"], "steps_observed": r["transitions"]}
+        rep.coverage["states"] += r["states"]
+        rep.coverage["transitions"] += r["transitions"]
+        rep.coverage["traces_validated_against_impl"] += r["executions"]
+        for v, ch in r["step_violations"]:
+            rep.violation({"scenario": r["name"], "part": "interleavings", "what": v.split(" although")[0] +
+                           " although a pid was completely bound to it"},
+                          {"spec": r["spec"], "schedule": ch, "what": v})
+    rep.coverage["interleaving_scenarios"] = per
+    rep.assumptions.append("concurrent part: after every scheduling step of every interleaving of a remover "
+                           "(delete_if_invalid_object / delete_object) with a tagger / storer, an object file may "
+                           "disappear only if no pid was completely bound to it just before that step "
+                           "(explored WITHOUT the persistent-set reduction, because the observer relates two "
+                           "different resources)")
     rep.assumptions += ["alphabet: pids p/q/r sharing content A (r also B), wrong validation data, rejected stores, metadata calls",
                         "after every transition each bound pid is retrieved through the API and compared byte for byte"]
     return rep.finish(rep._samples)
 
 
 def replay(rep):
+    if "schedule" in rep["replay"]:
+        from ._t import replay_schedule
+        return replay_schedule(rep)
     return replay_history(C04Spec("thorough"), rep)
